@@ -66,6 +66,45 @@ def pure_entry_points(ctx):
     names = ["feat_con_idt_sum", "feat_con_apr_sum", "feat_bin_size"]
     record("get_feature_names",
            lambda n: IndentationRater.get_feature_names(names=n), [names])
+    # returned objects must not be views of arguments / of library state
+    def no_alias(name, ret_arrays, owners):
+        ev = {"name": name, "argsame": True, "exc": "",
+              "byvalue": not any(np.shares_memory(a, b)
+                                 for a in ret_arrays for b in owners)}
+        events.append(ev)
+
+    def arrays_in(obj):
+        out = []
+        if isinstance(obj, np.ndarray):
+            out.append(obj)
+        elif isinstance(obj, dict):
+            for v in obj.values():
+                out += arrays_in(v)
+        elif isinstance(obj, (list, tuple)):
+            for v in obj:
+                out += arrays_in(v)
+        return out
+    for m in poc.POC_METHODS:
+        f2 = np.array(force, copy=True)
+        with warnings.catch_warnings():
+            warnings.simplefilter("ignore")
+            _cp, det = poc.compute_poc(f2, m.identifier, ret_details=True)
+        no_alias(f"compute_poc_details_alias:{m.identifier}",
+                 arrays_in(det), [f2])
+    for pid in ("P1", "P1b", "P2", "P4"):
+        i2 = synth.make_curve(n_app=400, noise=3e-11, seed=11)
+        steps, opts = world.pipe_value(pid)
+        with warnings.catch_warnings():
+            warnings.simplefilter("ignore")
+            det = i2.apply_preprocessing(steps, opts, ret_details=True)
+        cols = [np.asarray(i2[c]) for c in i2.columns] + \
+            [np.asarray(v) for v in i2._raw_data.values()]
+        no_alias(f"apply_preprocessing_details_alias:{pid}",
+                 arrays_in(det), cols)
+    p0 = idnt.get_initial_fit_parameters(model_key="hertz_para")
+    p1 = idnt.get_initial_fit_parameters()
+    events.append({"name": "get_initial_fit_parameters_alias",
+                   "argsame": True, "exc": "", "byvalue": p0 is not p1})
     idnt.fit_model(model_key="hertz_para")
     record("compute_features",
            lambda n: IndentationRater.compute_features(idnt, names=n),
@@ -80,7 +119,7 @@ def run(ctx):
         ctx, "C10_", sl,
         n_random=120 if quick else 1200, rand_len=30,
         rand_weights=dict(mutate_pi=4, mutate_pl=3, fit=5, getinit=2,
-                          rate=0.3, scan=0.1),
+                          rate=0.3, scan=0.1, alias_pl=3),
         walk_limit=250 if quick else None,
         curves=("syn1", "rec1"))
     pure = pure_entry_points(ctx)
